@@ -582,6 +582,13 @@ type entryResult struct {
 // effect is dominated by "the disposed flag was found clear", and every exit on
 // the "found set" edge returns the sentinel (or propagates the helper's error).
 func analyseEntry(w *World, fi *FuncInfo, flag *types.Var, sentinel string, depth int) entryResult {
+	return analyseEntryWith(w, fi, flag, sentinel, depth, false)
+}
+
+// analyseEntryWith: lax counts only calls into the repository (and dynamic
+// calls) as effects - what a method does with the standard library before it
+// looks at the container is not use of the container.
+func analyseEntryWith(w *World, fi *FuncInfo, flag *types.Var, sentinel string, depth int, lax bool) entryResult {
 	info := fi.Pkg.TypesInfo
 	fl := w.FlowOf(fi)
 	res := entryResult{pure: true}
@@ -595,7 +602,7 @@ func analyseEntry(w *World, fi *FuncInfo, flag *types.Var, sentinel string, dept
 				if cal == nil || cal.Exported() || w.Decls[cal] == nil || w.Decls[cal].Pkg != fi.Pkg || w.Decls[cal] == fi {
 					continue
 				}
-				sub := analyseEntry(w, w.Decls[cal], flag, sentinel, depth-1)
+				sub := analyseEntryWith(w, w.Decls[cal], flag, sentinel, depth-1, lax)
 				if !sub.sawTest || !sub.pure {
 					continue
 				}
@@ -646,6 +653,9 @@ func analyseEntry(w *World, fi *FuncInfo, flag *types.Var, sentinel string, dept
 		}
 		if isEffectNodeEntryExcept(info, n, func(cal *types.Func) bool {
 			if checking[cal] {
+				return true
+			}
+			if lax && (cal.Pkg() == nil || !strings.HasPrefix(cal.Pkg().Path(), modPath)) {
 				return true
 			}
 			_, isP := disposedPredicate(cal, flag, 2)
